@@ -2,6 +2,7 @@ package main
 
 import (
 	"fmt"
+	"go/token"
 	"strings"
 
 	"golang.org/x/tools/go/ssa"
@@ -102,7 +103,26 @@ func runR13_4(c *Ctx, outer *R) {
 		var at ssa.Instruction
 		for _, call := range callsIn(pf, false) {
 			cal := call.Common().StaticCallee()
-			if cal == nil || cal.Name() != "ParseValue" || len(call.Common().Args) != 1 {
+			if cal == nil {
+				continue
+			}
+			if cal.Name() != "ParseValue" || len(call.Common().Args) != 1 {
+				// a helper of the package that hands one of its parameters to ParseValue (parseElement(b1)): the
+				// argument bound to that parameter is what the parser visits
+				if cal.Blocks != nil && cal.Pkg == pf.Pkg && !token.IsExported(cal.Name()) {
+					for _, c2 := range callsIn(cal, false) {
+						c2f := c2.Common().StaticCallee()
+						if c2f == nil || c2f.Name() != "ParseValue" || len(c2.Common().Args) != 1 {
+							continue
+						}
+						for k, prm := range cal.Params {
+							if c2.Common().Args[0] == ssa.Value(prm) && k < len(call.Common().Args) {
+								at = call
+								visited = append(visited, sliceOf(pev, call.Common().Args[k], opened, 0)...)
+							}
+						}
+					}
+				}
 				continue
 			}
 			at = call
